@@ -11,7 +11,8 @@ package consensus
 // V := number of distinct configuration peers i for which the pool HOLDS a signature attributed to
 // i for proposer P (EndorseSigs[i], commit messages' CommitterSig / EndorsersSig[i] / ProposerSig,
 // P's proposal signatures) that verifies under i's public key over P's block hash or empty-block
-// hash, and V must be >= N-(N-1)/3.
+// hash, and V must be >= N-(N-1)/3. Only BLOCK signatures count: the optional cross-chain fields of
+// the messages (c31_optfields_test.go) are generated for honest and faulty senders but never enter V.
 
 import (
 	"encoding/json"
@@ -39,12 +40,13 @@ const (
 	c31Blk             = uint32(5)
 )
 
-const c31Rule = "one height, N in {4,7,10}, C=(N-1)/3, 0..C faulty peers (one history in four is an empty-block round: 80% of the honest endorse/commit messages are for the EMPTY block, so more than C commit-for-empty messages occur); histories of up to 3N+6 messages fed in generated order: proposals (2-3 proposers, one equivocating variant), honest endorse/commit messages with genuine signatures over the named proposal's (empty-)block hash and EndorsersSig copied from genuine endorsements already in the history, faulty commit/endorse messages with arbitrary claimed endorser indices (members, the proposer, itself, non-members) and signatures (garbage, empty, genuine, copied from another proposal), a Committer/Endorser field that differs from the sending peer, a signed hash that is not the named proposal's, badly signed messages (rejected at intake), duplicates; commitDone evaluated after every message; non-trivial = history in which at least one forged claim passed intake and which ends with the verifiable-signer count of some proposer within one of the quorum; distinct = different message sequence"
+const c31Rule = "one height, N in {4,7,10}, C=(N-1)/3, 0..C faulty peers (one history in four is an empty-block round: 80% of the honest endorse/commit messages are for the EMPTY block, so more than C commit-for-empty messages occur); histories of up to 3N+6 messages fed in generated order: proposals (2-3 proposers, one equivocating variant), honest endorse/commit messages with genuine signatures over the named proposal's (empty-)block hash and EndorsersSig copied from genuine endorsements already in the history, faulty commit/endorse messages with arbitrary claimed endorser indices (members, the proposer, itself, non-members) and signatures (garbage, empty, genuine, copied from another proposal), a Committer/Endorser field that differs from the sending peer, a signed hash that is not the named proposal's, badly signed messages (rejected at intake), duplicates; commitDone evaluated after every message; non-trivial = history in which at least one forged claim passed intake and which ends with the verifiable-signer count of some proposer within one of the quorum; distinct = different message sequence." + c31OptRule
 
 type c31Prop struct {
 	proposer       uint32
 	variant        int
 	msg            *vbft.VerifProposalMsg
+	msgCCM         *vbft.VerifProposalMsg // the same blocks, carrying the round's cross-chain message signed by the proposer
 	hBlock, hEmpty common.Uint256
 }
 
@@ -54,6 +56,8 @@ type c31Env struct {
 	chain   *vconfig.ChainConfig
 	part    *vbft.BlockParticipantConfig
 	props   []*c31Prop
+	ccm     *types.CrossChainMsg // the round's cross-chain message (content only; every proposer signs its own copy)
+	ccmHash common.Uint256
 }
 
 func (e *c31Env) key(idx uint32) *fix.ZooKey {
@@ -89,6 +93,9 @@ func newPoolEnv(n, c int) *c31Env {
 	}
 	e.part = &vbft.BlockParticipantConfig{BlockNum: c31Blk, Vrf: vrf, ChainConfig: e.chain}
 	e.part.Proposers, e.part.Endorsers, e.part.Committers = vbft.VerifCalcParticipantPeers(e.part, e.chain)
+	e.ccm = &types.CrossChainMsg{Version: 0, Height: c31Blk - 1}
+	e.ccm.StatesRoot[0], e.ccm.StatesRoot[31] = 0xcc, byte(n)
+	e.ccmHash = e.ccm.Hash()
 	// proposals: the first up to three proposers, plus an equivocating second variant of the first
 	np := len(e.part.Proposers)
 	if np > 3 {
@@ -116,6 +123,10 @@ func (e *c31Env) mkProposal(proposer uint32, variant int) *c31Prop {
 	p := &c31Prop{proposer: proposer, variant: variant, hBlock: blk.Hash(), hEmpty: empty.Hash()}
 	p.msg = &vbft.VerifProposalMsg{Block: &vbft.Block{Block: blk, EmptyBlock: empty, Info: info},
 		BlockProposerSig: blk.Header.SigData[0], EmptyBlockProposerSig: empty.Header.SigData[0]}
+	ccm := &types.CrossChainMsg{Version: e.ccm.Version, Height: e.ccm.Height, StatesRoot: e.ccm.StatesRoot,
+		SigData: [][]byte{signHash(e.key(proposer), e.ccmHash)}}
+	p.msgCCM = &vbft.VerifProposalMsg{Block: &vbft.Block{Block: blk, EmptyBlock: empty, Info: info, CrossChainMsg: ccm},
+		BlockProposerSig: blk.Header.SigData[0], EmptyBlockProposerSig: empty.Header.SigData[0]}
 	return p
 }
 
@@ -136,6 +147,7 @@ func (e *c31Env) hashesOf(p uint32) []common.Uint256 {
 type c31Sent struct {
 	sender uint32
 	hash   common.Uint256
+	sigOK  bool // the block signature verifies under the SENDER's key over the hash the message names
 }
 
 type c31Hist struct {
@@ -144,7 +156,13 @@ type c31Hist struct {
 	faulty   map[uint32]bool
 	log      []string
 	commitBy map[*vbft.VerifCommitMsg]uint32 // accepted commit message -> sending peer
-	endBySig map[string]c31Sent              // accepted endorse message signature -> sender, claimed hash
+	// accepted commit message -> its CommitterSig verifies under the SENDER's key over CommitBlockHash
+	// (what intake is supposed to guarantee; the known-finding recognisers rely on it)
+	commitSigOK map[*vbft.VerifCommitMsg]bool
+	ccmRound    bool               // honest messages of this history carry genuine cross-chain fields
+	cls         []string           // optional-field classes of the faulty messages of this history
+	badOpt      int                // faulty messages with an invalid block signature or invalid cross-chain field
+	endBySig    map[string]c31Sent // accepted endorse message signature -> sender, claimed hash
 	// genuine endorsements produced so far: (proposer,forEmpty) -> endorser -> sig
 	endorsed map[string]map[uint32][]byte
 	// signatures honest peers produced in this history (may be replayed by faulty peers)
@@ -168,7 +186,7 @@ func (e *c31Env) newHist(faulty map[uint32]bool) *c31Hist {
 	if err != nil {
 		panic(err)
 	}
-	return &c31Hist{e: e, pool: pool, faulty: faulty, commitBy: map[*vbft.VerifCommitMsg]uint32{}, endBySig: map[string]c31Sent{},
+	return &c31Hist{e: e, pool: pool, faulty: faulty, commitBy: map[*vbft.VerifCommitMsg]uint32{}, commitSigOK: map[*vbft.VerifCommitMsg]bool{}, endBySig: map[string]c31Sent{},
 		endorsed: map[string]map[uint32][]byte{}, hasEndorsed: map[uint32]bool{}, hasCommitted: map[uint32]bool{}}
 }
 
@@ -186,9 +204,10 @@ func (h *c31Hist) intake(from uint32, m vbft.ConsensusMsg) (err error) {
 }
 
 func (h *c31Hist) sendProposal(p *c31Prop) error {
-	err := h.intake(p.proposer, p.msg)
-	h.note("prop(%d.%d)%s", p.proposer, p.variant, okStr(err))
-	return err
+	if h.ccmRound {
+		return h.sendProposalMsg(p, p.msgCCM, "+ccm")
+	}
+	return h.sendProposalMsg(p, p.msg, "")
 }
 
 func okStr(err error) string {
@@ -205,10 +224,15 @@ func okStr(err error) string {
 // whose key signs `hash` (nil = use raw), raw = explicit signature bytes.
 func (h *c31Hist) sendEndorse(from, named, proposer uint32, empty bool, hash common.Uint256, sig []byte, tag string) error {
 	m := &vbft.VerifEndorseMsg{Endorser: named, EndorsedProposer: proposer, BlockNum: c31Blk, EndorsedBlockHash: hash, EndorseForEmpty: empty, EndorserSig: sig}
+	return h.sendEndorseMsg(from, m, tag)
+}
+
+func (h *c31Hist) sendEndorseMsg(from uint32, m *vbft.VerifEndorseMsg, tag string) error {
 	err := h.intake(from, m)
-	h.note("end%s(from=%d as=%d for=%d e=%v h=%x)%s", tag, from, named, proposer, empty, hash[:3], okStr(err))
+	h.note("end%s(from=%d as=%d for=%d e=%v h=%x)%s", tag, from, m.Endorser, m.EndorsedProposer, m.EndorseForEmpty, m.EndorsedBlockHash[:3], okStr(err))
 	if err == nil {
-		h.endBySig[string(sig)] = c31Sent{from, hash}
+		k := h.e.key(from)
+		h.endBySig[string(m.EndorserSig)] = c31Sent{from, m.EndorsedBlockHash, k != nil && sigOK(k.PublicKey, m.EndorsedBlockHash, m.EndorserSig)}
 	}
 	return err
 }
@@ -222,6 +246,8 @@ func (h *c31Hist) sendCommit(from uint32, m *vbft.VerifCommitMsg, tag string) er
 	h.note("com%s(from=%d as=%d for=%d e=%v h=%x E={%s})%s", tag, from, m.Committer, m.BlockProposer, m.CommitForEmpty, m.CommitBlockHash[:3], strings.Join(es, " "), okStr(err))
 	if err == nil {
 		h.commitBy[m] = from
+		k := h.e.key(from)
+		h.commitSigOK[m] = k != nil && sigOK(k.PublicKey, m.CommitBlockHash, m.CommitterSig)
 	}
 	return err
 }
@@ -288,7 +314,7 @@ func (h *c31Hist) verdict(P uint32) c31Verdict {
 					continue
 				}
 				add(i, s.Signature)
-				if rec, ok := h.endBySig[string(s.Signature)]; ok {
+				if rec, ok := h.endBySig[string(s.Signature)]; ok && rec.sigOK {
 					if rec.sender != i {
 						sendClaim[i] = true
 					} else if !inHashes(rec.hash) {
@@ -303,10 +329,15 @@ func (h *c31Hist) verdict(P uint32) c31Verdict {
 			}
 			add(m.Committer, m.CommitterSig)
 			add(P, m.ProposerSig)
-			if from, ok := h.commitBy[m]; ok && from != m.Committer {
-				sendClaim[m.Committer] = true
-			} else if !inHashes(m.CommitBlockHash) {
-				hashClaim[m.Committer] = true
+			// the two recognisers below describe messages that carry the SENDER's valid block
+			// signature (under a foreign Committer field / over a foreign hash); a message whose
+			// block signature is not the sender's at all is neither
+			if from, ok := h.commitBy[m]; !ok || h.commitSigOK[m] {
+				if ok && from != m.Committer {
+					sendClaim[m.Committer] = true
+				} else if !inHashes(m.CommitBlockHash) {
+					hashClaim[m.Committer] = true
+				}
 			}
 			if m.Committer == P {
 				v.proposerNamed = true
@@ -427,7 +458,9 @@ func (e *c31Env) honestEndorse(h *c31Hist, who uint32, p *c31Prop, empty bool) {
 		hash = p.hEmpty
 	}
 	sig := signHash(e.key(who), hash)
-	if h.sendEndorse(who, who, p.proposer, empty, hash, sig, "") == nil {
+	m := &vbft.VerifEndorseMsg{Endorser: who, EndorsedProposer: p.proposer, BlockNum: c31Blk, EndorsedBlockHash: hash, EndorseForEmpty: empty, EndorserSig: sig}
+	h.honestCCMEndorse(m, who)
+	if h.sendEndorseMsg(who, m, "") == nil {
 		k := ekey(p.proposer, empty)
 		if h.endorsed[k] == nil {
 			h.endorsed[k] = map[uint32][]byte{}
@@ -572,7 +605,8 @@ func TestC31_WitnessProposerPlus1(t *testing.T) { c31WitnessTest(t, c31KeyPropos
 
 func c31History(t *testing.T, n int, quick, thorough int) {
 	ev := harn.For("C31").Rule(c31Rule)
-	ev.Assume("signatures are ECDSA P-256 over the 32-byte block hash as in constructEndorseMsg/constructCommitMsg; cross-chain message signatures are absent (nil), as for blocks without cross-chain messages")
+	ev.Assume("signatures are ECDSA P-256 over the 32-byte block hash as in constructEndorseMsg/constructCommitMsg; in a cross-chain round every honest peer signs the same cross-chain message hash (the cross-states root of the previous height)")
+	ev.Floor("hist:cross-chain-round:done-with-quorum", "hist:cross-chain-round", 0.10)
 	ev.Floor("hist:done-with-quorum", "", 0.12)
 	ev.Floor("hist:forged-claim-passed-intake", "", 0.30)
 	known := c31KnownSet()
@@ -603,7 +637,8 @@ func c31History(t *testing.T, n int, quick, thorough int) {
 		// share (in tenths) of honest endorsements / commits that are for the proposal's EMPTY block:
 		// one history in four is a round that falls back to the empty block
 		emptyBias := rapid.SampledFrom([]int{1, 1, 1, 8}).Draw(t, "emptyBias")
-		h.note("emptyBias=%d", emptyBias)
+		h.ccmRound = rapid.IntRange(0, 2).Draw(t, "ccmRound") == 0
+		h.note("emptyBias=%d ccmRound=%v", emptyBias, h.ccmRound)
 		excludedCase, doneCase := false, false
 		pickProp := func(label string) *c31Prop {
 			if rapid.IntRange(0, 9).Draw(t, label+"Main") < 7 {
@@ -619,7 +654,13 @@ func c31History(t *testing.T, n int, quick, thorough int) {
 				if p.variant == 1 && !faulty[p.proposer] {
 					p = e.props[0] // only a faulty proposer equivocates
 				}
-				h.sendProposal(p)
+				if faulty[p.proposer] && rapid.Bool().Draw(t, "forgedProposal") {
+					m, bs, ccm := h.forgedProposal(t, p, 4, 4)
+					err := h.sendProposalMsg(p, m, fmt.Sprintf("![bs=%s,ccm=%s]", bs, ccm))
+					h.optClass(optProposal, bs, ccm, err == nil)
+				} else {
+					h.sendProposal(p)
+				}
 			case kind < 38 || len(fl) == 0 && kind < 55: // honest endorsement
 				var cands []uint32
 				for _, x := range hl {
@@ -673,6 +714,8 @@ func c31History(t *testing.T, n int, quick, thorough int) {
 				}
 				h.hasCommitted[who] = true
 				m := e.commitMsg(who, who, p, empty, hash, end)
+				m.ProposerSig = h.heldProposerSig(p, empty, m.ProposerSig)
+				h.honestCCMCommit(m, who)
 				if h.sendCommit(who, m, "") == nil {
 					h.honestSigs = append(h.honestSigs, c31HonestSig{who, hash, m.CommitterSig})
 				}
@@ -727,12 +770,40 @@ func c31History(t *testing.T, n int, quick, thorough int) {
 						forged = true
 					}
 				}
-				if h.sendCommit(f, m, "!") == nil {
-					if forged {
-						h.forgedIn++
+				// half of the forged commits are first tried with generated optional fields: block
+				// signature kind x cross-chain field kind; when that variant is rejected at intake the
+				// faulty peer falls back to the plain message
+				sent := false
+				if rapid.Bool().Draw(t, "optFields") {
+					v := *m
+					var bs, ccm string
+					v.CommitterSig, bs = h.drawBlockSig(t, "own", f, hash, p, 4)
+					v.CommitCCMHash, v.CrossChainMsgCommitterSig, ccm = h.drawCCM(t, "own", f, hash, 2, 6)
+					if ccm != ccmAbsent && len(end) > 0 && rapid.Bool().Draw(t, "endCcm") {
+						v.CrossChainMsgEndorserSig = map[uint32][]byte{}
+						for _, idx := range sortedKeys(end) {
+							v.CrossChainMsgEndorserSig[idx] = h.forgedSig(t, idx, p, e.ccmHash, f)
+						}
 					}
-				} else {
-					h.rejected++
+					verr := h.sendCommit(f, &v, fmt.Sprintf("![bs=%s,ccm=%s/%x]", bs, ccm, v.CommitCCMHash[:2]))
+					h.optClass(optCommit, bs, ccm, verr == nil)
+					if verr == nil {
+						sent = true
+						if forged {
+							h.forgedIn++
+						}
+					} else {
+						h.rejected++
+					}
+				}
+				if !sent {
+					if h.sendCommit(f, m, "!") == nil {
+						if forged {
+							h.forgedIn++
+						}
+					} else {
+						h.rejected++
+					}
 				}
 			case kind < 94: // forged endorsement from a faulty peer
 				f := rapid.SampledFrom(fl).Draw(t, "fe")
@@ -753,7 +824,31 @@ func c31History(t *testing.T, n int, quick, thorough int) {
 					sig = []byte("garbage")
 				}
 				forged := named != f || (hash != p.hBlock && hash != p.hEmpty)
-				if h.sendEndorse(f, named, p.proposer, false, hash, sig, "!") == nil {
+				em := &vbft.VerifEndorseMsg{Endorser: named, EndorsedProposer: p.proposer, BlockNum: c31Blk, EndorsedBlockHash: hash, EndorserSig: sig}
+				tag := "!"
+				// half of the forged endorsements are first tried with generated optional fields
+				// (fall back to the plain message when rejected at intake)
+				eerr := fmt.Errorf("not sent")
+				if rapid.Bool().Draw(t, "eOptFields") {
+					v := *em
+					var bs, ccm string
+					v.EndorserSig, bs = h.drawBlockSig(t, "fe", f, hash, p, 4)
+					v.CrossChainMsgHash, v.CrossChainMsgEndorserSig, ccm = h.drawCCM(t, "fe", f, hash, 2, 6)
+					eerr = h.sendEndorseMsg(f, &v, fmt.Sprintf("![bs=%s,ccm=%s/%x]", bs, ccm, v.CrossChainMsgHash[:2]))
+					h.optClass(optEndorse, bs, ccm, eerr == nil)
+					if eerr == nil {
+						em = &v
+						if bs != sigValid {
+							forged = true // (only on a tree that lets such a message pass)
+						}
+					} else {
+						h.rejected++
+					}
+				}
+				if eerr != nil {
+					eerr = h.sendEndorseMsg(f, em, tag)
+				}
+				if eerr == nil {
 					if forged {
 						h.forgedIn++
 					}
@@ -762,7 +857,7 @@ func c31History(t *testing.T, n int, quick, thorough int) {
 						if h.endorsed[k] == nil {
 							h.endorsed[k] = map[uint32][]byte{}
 						}
-						h.endorsed[k][f] = sig
+						h.endorsed[k][f] = em.EndorserSig
 					}
 				} else {
 					h.rejected++
@@ -801,6 +896,9 @@ func c31History(t *testing.T, n int, quick, thorough int) {
 			}
 		}
 		_ = bestP
+		if len(fl) > 0 {
+			ev.Class("hist:with-faulty-peers")
+		}
 		if h.forgedIn > 0 {
 			ev.Class("hist:forged-claim-passed-intake")
 		}
@@ -824,6 +922,16 @@ func c31History(t *testing.T, n int, quick, thorough int) {
 			}
 		}
 		ev.Class(fmt.Sprintf("faulty:%d", len(fl)))
+		if h.ccmRound {
+			ev.Class("hist:cross-chain-round")
+			if doneCase && !excludedCase {
+				ev.Class("hist:cross-chain-round:done-with-quorum")
+			}
+		}
+		sort.Strings(h.cls)
+		for _, c := range h.cls {
+			ev.Class(c)
+		}
 		if emptyBias > 5 {
 			ev.Class("hist:empty-block-round")
 			if doneCase && !excludedCase {
